@@ -45,7 +45,7 @@ def cells_events(rec, nfl):
         fl[j] = np.abs(fl[j] * 3.0) + 1.0
         # non-positive values in some channels only (which ones depends on the seed), strictly positive in the others
         if n > 300 and (rec['seed'] >> j) & 1 == 0:
-            fl[j][265:270] = [-5.0, 0.0, -0.5, -120.0, 0.0]
+            fl[j][265:270] = [-5.0, 0.0, -0.5, -(20.0 + rec['seed'] % 200), 0.0]     # the most negative event differs from file to file
     fsc = np.clip(fsc, 1, None)
     ssc = np.clip(ssc, 1, None)
     if n > 300 and rec['seed'] % 2 == 1:
